@@ -20,7 +20,9 @@ EXPLANATION = (
     "call reachable); (R2) the caller's mapping passed to run/map is used only as the argument of normalize_inputs, which copies it, and neither it "
     "nor the map-input generators have a write/mutation effect on it; (R3) every run starts from a freshly constructed GraphState whose fields use "
     "default_factory; (R4) runner, template and executor classes assign to self only in __init__, no module-level mutable container under runners/ "
-    "is mutated by any function, and the ContextVar limiter is the only cross-call channel."
+    "is mutated by any function, and the ContextVar limiter is the only cross-call channel; (R5) who-may-copy: deepcopy is called only by the two "
+    "documented helpers (signature defaults; explicit map_over clone), copy.copy only on a derivation's receiver, and bind() stores the caller's objects "
+    "themselves."
 )
 NOT_DECIDED = "Equality of results across repeated/concurrent runs as such; behaviour of user objects that refuse deepcopy (reported as GraphConfigError by design)."
 
@@ -32,6 +34,7 @@ def run(ctx) -> None:
     rep.rule("C18.R2", "the caller's input mapping is copied before use and never mutated", floor=5)
     rep.rule("C18.R3", "each run starts from a fresh GraphState with per-instance containers", floor=5)
     rep.rule("C18.R4", "no per-run state on runner/executor objects or module-level containers", floor=8)
+    rep.rule("C18.R5", "values are copied only by the two documented helpers; bind stores the very object", floor=3)
 
     # ---- R1 ---------------------------------------------------------------------
     ri = db.func("runners._shared.helpers._resolve_input")
@@ -100,6 +103,31 @@ def run(ctx) -> None:
     ci = db.func("runners._shared.helpers.collect_inputs_for_node")
     ok = any(isinstance(n, ast.Assign) and isinstance(n.targets[0], ast.Subscript) and isinstance(n.value, ast.Call) and "_resolve_input" in call_names(db, n.value, ci) for n in walk_local(ci.node))
     rep.add("C18.R1", f"{ci.qname}:uses-resolver", ok, ci.loc(), "every input of a node is obtained from _resolve_input" if ok else "collect_inputs_for_node bypasses the copying resolver")
+
+    # ---- R5: who may copy a value ------------------------------------------------
+    allowed = {"hypergraph.runners._shared.helpers._safe_deepcopy": "signature defaults", "hypergraph.runners._shared.helpers._clone_value": "explicit map_over(clone=...) of broadcast values"}
+    n_copy = 0
+    for f in db.all_funcs():
+        if f.module.name.startswith("hypergraph.viz") or f.module.name.startswith("hypergraph.events.rich"):
+            continue
+        for c in db.calls_in(f):
+            d = dotted(c.func) or ""
+            if d in ("copy.deepcopy", "deepcopy", "pickle.loads"):
+                if d == "pickle.loads":
+                    continue
+                n_copy += 1
+                ok = f.qname in allowed
+                rep.add("C18.R5", f"{f.qname}:{d}", ok, f"{f.module.rel}:{c.lineno}", f"documented copy site ({allowed.get(f.qname)})" if ok else "a value is deep-copied outside the two documented helpers: bound/provided/edge values must reach nodes as the very object")
+            if d == "copy.copy":
+                arg = src(c.args[0]) if c.args else ""
+                ok = arg == "self"
+                n_copy += 1
+                rep.add("C18.R5", f"{f.qname}:copy.copy({arg})", ok, f"{f.module.rel}:{c.lineno}", "shallow copy of the receiver (derivation helper), never of a value" if ok else "a value is shallow-copied on its way to a node")
+    g = db.cls("graph.core.Graph")
+    bind = g.methods["bind"]
+    stores = [n for n in walk_local(bind.node) if isinstance(n, ast.Assign) and any(isinstance(t, ast.Attribute) and t.attr == "_bound" for t in n.targets)]
+    ok = len(stores) == 1 and isinstance(stores[0].value, ast.Dict) and any(k is None and src(v) == "values" for k, v in zip(stores[0].value.keys, stores[0].value.values)) and not any(isinstance(x, ast.Call) for x in ast.walk(stores[0].value))
+    rep.add("C18.R5", f"{bind.qname}:stores-the-object", ok, bind.loc(), "bind() stores the caller's objects themselves ({**old, **values})" if ok else "bind() transforms or copies the bound values")
 
     # ---- R2 ---------------------------------------------------------------------
     ni = db.func("runners._shared.input_normalization.normalize_inputs")
@@ -229,5 +257,6 @@ VARIANTS = [
     Variant("state-field-shared-default", TY, replace_once("    routing_decisions: dict[str, Any] = field(default_factory=dict)\n\n    def update_value", "    routing_decisions: dict[str, Any] = None  # type: ignore[assignment]\n\n    def update_value"), {"C18.R3"}),
     Variant("runner-keeps-last-state", SR, replace_once("        state = initialize_state(graph, values)\n        active_nodes = compute_active_node_set(graph)\n\n        for _ in range(max_iterations):", "        state = initialize_state(graph, values)\n        self._last_state = state\n        active_nodes = compute_active_node_set(graph)\n\n        for _ in range(max_iterations):"), {"C18.R4"}),
     Variant("module-level-run-registry", SR, lambda s: s.replace("DEFAULT_MAX_ITERATIONS = 1000\n", "DEFAULT_MAX_ITERATIONS = 1000\n_RUNS: dict = {}\n", 1).replace("        state = initialize_state(graph, values)\n        active_nodes = compute_active_node_set(graph)\n\n        for _ in range(max_iterations):", "        state = initialize_state(graph, values)\n        _RUNS[run_id] = state\n        active_nodes = compute_active_node_set(graph)\n\n        for _ in range(max_iterations):"), {"C18.R4"}),
+    Variant("bind-deepcopies", "src/hypergraph/graph/core.py", lambda s_: s_.replace("        new_graph._bound = {**self._bound, **values}", "        import copy as _copy\n\n        new_graph._bound = {**self._bound, **{k: _copy.deepcopy(v) for k, v in values.items()}}"), {"C18.R5"}),
     Variant("twin-resolver-inverted-test", HP, replace_once("    if source == ValueSource.DEFAULT:\n        return _safe_deepcopy(value, param_name=param)\n\n    # All other sources: return as-is (no copying)\n    return value", "    if source != ValueSource.DEFAULT:\n        return value\n    return _safe_deepcopy(value, param_name=param)"), set()),
 ]
